@@ -105,7 +105,7 @@ func VerifC14StakingMigrate() {
 	times := []time.Time{now.Add(-10 * time.Second), now, now.Add(100 * time.Second)}
 	amt := func(name string) sdkmath.Int {
 		b := rt.BigInt(name)
-		rt.Assume(rt.And(b.Sign() > 0, b.BitLen() <= 100))
+		rt.Assume(rt.And(b.Sign() > 0, b.BitLen() <= 64))
 		return sdkmath.NewIntFromBigInt(b)
 	}
 
